@@ -10,12 +10,13 @@ LLVM=$(dirname "$(find /root/.rustup/toolchains/nightly-x86_64-unknown-linux-gnu
 rm -rf "$COV"; mkdir -p "$COV/prof" "$COV/out"
 cd /verif/harness
 export CARGO_NET_OFFLINE=true
+export LLVM_PROFILE_FILE="$COV/build/%p.profraw"   # build scripts and proc macros are instrumented too
 RUSTFLAGS="-C instrument-coverage" cargo +nightly build --release --offline --target-dir "$COV/target" 2>&1 | tail -2
 # the CLI too (C10/C16-C19 drive it out of process)
 (cd /repo && RUSTFLAGS="-C instrument-coverage" cargo +nightly build --offline --target-dir "$COV/repo" 2>&1 | tail -1)
 BIN="$COV/target/release/vcheck"
 for p in C01 C02 C03 C04 C05 C06 C07 C08 C09 C10 C11 C12 C13 C14 C15 C16 C17 C18 C19; do
-  LLVM_PROFILE_FILE="$COV/prof/$p-%8m.profraw" VERIF_CLI="$COV/repo/debug/cteepbd" VERIF_OUT="$COV/out" VERIF_SEED=$seed VERIF_FUZZ_SECS=0 \
+  LLVM_PROFILE_FILE="$COV/prof/$p-%8m.profraw" VERIF_SCRATCH="$COV/scratch" VERIF_CLI="$COV/repo/debug/cteepbd" VERIF_OUT="$COV/out" VERIF_SEED=$seed VERIF_FUZZ_SECS=0 \
     "$BIN" $p --tier $tier > "$COV/out/$p.log" 2>&1 || echo "$p rc=$?"
 done
 "$LLVM/llvm-profdata" merge -sparse "$COV"/prof/*.profraw -o "$COV/all.profdata"
